@@ -18,7 +18,7 @@ namespace c18
             bool is_default() const override { return false; }
             size_t max_size() const override { return SIZE_MAX; }
             bool reports_failure_by_null() const override { return true; }
-            AllocResult allocate(size_t n) override
+            AllocResult allocate(size_t n, int) override
             {
                 AllocResult r;
                 ClientScope cs;
